@@ -92,6 +92,7 @@ func c13(c *Ctx) {
 		c.ruleOrder(r, f, "closed=true", storeTo("OngoingTx.closed"), "st.commit", callTo(storeT+"commit"), nil, 1)
 	}
 	c12QueryFailureAborts(c, "C13.1/query-path-failure-aborts")
+	c13DmlFailureIsReported(c, "C13.9/failed-dml-is-reported")
 	// execPreparedStmts: failure cancels (shared with C12.4), explicit-close transactions are not auto-committed
 	if f := c.mustFn(r, "embedded/sql.(*Engine).execPreparedStmts"); f != nil {
 		commits := sites(f, callTo(sqlTxT+"Commit"))
@@ -444,5 +445,50 @@ func c13EngineStateAtCommit(c *Ctx, r string) {
 	}
 	if n < 6 {
 		c.undecided(r, "floor", fmt.Sprintf("%d writes of the engine-wide view / sequence maps found", n))
+	}
+}
+
+// c13DmlFailureIsReported: a data-modifying statement that failed may have written part of its rows into the transaction
+// already; the error is the only thing that makes the caller (QueryPreparedStmt) cancel the transaction. Where the
+// statement is executed on behalf of a query (DML ... RETURNING), every edge on which its error is non-nil leads to
+// returns that report an error: an empty, successful result leaves the partial writes to be committed.
+func c13DmlFailureIsReported(c *Ctx, r string) {
+	f := c.mustFn(r, "embedded/sql.(*ReturningStmt).Resolve")
+	if f == nil {
+		return
+	}
+	runs := sites(f, func(in ssa.Instruction) bool {
+		cc := callOf(in)
+		_, isDefer := in.(*ssa.Defer)
+		return cc != nil && !isDefer && cc.IsInvoke() && cc.Method.Name() == "execAt"
+	})
+	if len(runs) == 0 {
+		c.undecided(r, fnName(f)+":execAt", "the execution of the statement was not found")
+		return
+	}
+	for i, in := range runs {
+		ee := errEdgeOf(in)
+		var edges []cfgEdge
+		for _, b := range f.Blocks {
+			for si := range b.Succs {
+				if ee != nil && ee(b, si) {
+					edges = append(edges, cfgEdge{b, si})
+				}
+			}
+		}
+		construct := fmt.Sprintf("%s:execAt#%d:failure-is-reported", fnName(f), i)
+		if len(edges) == 0 {
+			c.fail(r, construct, c.pos(in.Pos()), "the error of the statement is not examined")
+			continue
+		}
+		q := &pathQ{fn: f, fromEdges: edges, to: func(x ssa.Instruction) bool {
+			rt, ok := x.(*ssa.Return)
+			return ok && retKind(rt) != "fail"
+		}}
+		if w := q.bypass(); w != nil {
+			c.fail(r, construct, c.pos(in.Pos()), "after the statement failed a result is returned that does not carry an error ("+c.witnessStr(w)+"): the rows it had already written stay in the transaction and are committed with it")
+		} else {
+			c.ok(r, construct, c.pos(in.Pos()), "every return after a failed execution reports an error")
+		}
 	}
 }
